@@ -98,6 +98,9 @@ class C10(vlib.Check):
                     yield fmt_case('string', 'default', f, ['u8:200', 's:4142'])
         for f in all_strings(ALPHA14, maxlen):
             yield from with_args(f)
+            # the same string through a user-defined format_writer that keeps scanning after a caught bad_format
+            if b'{' in f:
+                yield 'writer_retry ' + hx(f)
         if quick:
             # every length-5 string that starts a field
             for tup in itertools.product(ALPHA14, repeat=4):
@@ -128,11 +131,12 @@ class C10(vlib.Check):
                     abort_budget[0] -= 1
             mode = rng.choice(['default', 'default', 'check', 'substitute', 'assume'])
             yield fmt_case('string', mode, f, args)
+            yield 'writer_retry ' + hx(f)
             for c in cuts(f):
                 yield fmt_case('string', mode, c, args)
 
     def same(self, case, impl, model):
-        if case.startswith('strtol'):
+        if case.startswith('strtol') or case.startswith('writer_retry'):
             return impl == model
         ic, mc = outcome_class(impl), outcome_class(model)
         if ic == mc:
@@ -143,7 +147,7 @@ class C10(vlib.Check):
         return ic in both and mc in both
 
     def allowed(self, case, impl, spec):
-        if case.startswith('strtol'):
+        if case.startswith('strtol') or case.startswith('writer_retry'):
             return impl == spec
         return class_allowed(impl, spec)
 
